@@ -150,6 +150,32 @@ def body(ck):
                 nt = ("cat", n, tuple(mask.tolist()), kid) if (not mask.all() and not mask[int(np.argmax(logits))]) else None
                 kid += 1
                 add(lit_cat(ews, mask, pu, ml, pm, int(mode), draws), j, nt)
+    # extreme logit gaps: a masked action that dominates the allowed ones by far more than the range of exp() must still get
+    # probability exactly 0, the allowed ones must be renormalised to a finite law, and mode / samples must be allowed
+    # (masking implemented in probability space underflows the allowed mass to 0/0 here)
+    for n in range(2, 5):
+        for gap in (100.0, 800.0, 5000.0):
+            for mask in all_masks(n):
+                if mask.all():
+                    continue
+                logits = rng.normal(size=n)
+                logits = np.where(mask, logits, logits + gap)
+                keys = jr.split(jr.key(int(rng.integers(2 ** 31))), nkeys)
+                jx = {"component": "Categorical.mask/extreme-gap", "logits": logits.tolist(), "mask": mask.tolist(), "gap": gap}
+                ck.current_case = jx
+                for dtype in (jnp.float64, jnp.float32):
+                    pu, ml, pm, mode, samples, (s2, lp2), noise = map(np.asarray, run_cat(jnp.asarray(logits, dtype=dtype), jnp.asarray(mask), keys))
+                    ok = (np.all(np.isfinite(pm)) and np.all(pm[~mask] == 0) and abs(float(pm.sum()) - 1.0) < 1e-5 and bool(mask[int(mode)])
+                          and bool(mask[samples.astype(int)].all()) and bool(mask[np.asarray(s2).astype(int)].all()) and np.all(np.isfinite(lp2)))
+                    ck.count("Categorical.mask/extreme-gap")
+                    ck.case_seen(("cat-gap", n, gap, tuple(mask.tolist()), str(dtype)))
+                    if not ok:
+                        if not any(v.sig == "C16/Categorical/extreme-logit-gap" for v in ck.violations):
+                            ck.violations.append(Violation("impl-violates-property", "C16/Categorical/extreme-logit-gap",
+                                "with a masked action dominating by a huge logit gap the masked distribution is not a finite law on the allowed actions / a masked action is chosen",
+                                case={**jx, "dtype": str(dtype), "impl_masked_probs": pm.tolist(), "impl_mode": int(mode), "impl_samples": samples.tolist()[:8]}))
+                        break
+
     # exact ties among logits: mode must still be allowed and a maximiser (tie-break = first, jnp.argmax)
     for n in range(2, nmax + 1):
         for _ in range(3):
